@@ -17,7 +17,7 @@ import itertools
 import math
 from fractions import Fraction
 
-from .poly import Poly, to_num, is_num, as_poly
+from .poly import Poly, to_num, is_num, as_poly, even_fn, canon_sign, sym_key, poly_from_key, pk, unpk
 
 
 class Unsupported(Exception):
@@ -596,6 +596,8 @@ def ew1(op, a):
                 el.append(simp(x * x))
             elif op == "stop_gradient":
                 el.append(x)
+            elif op == "abs":
+                el.append(even_fn("abs", x))
             else:
                 el.append(Poly.fn(op, x))
         else:
@@ -1167,7 +1169,7 @@ def _select(A, key, ax, k):
     if any(c.elems is None for c in cands):
         return Arr(S[:p] + K + S[p:], None, A.dtype)
     nS = prod(S)
-    ckeys = [tuple(as_poly(c.elems[j]).key() for c in cands) for j in range(nS)]
+    ckeys = [tuple(pk(c.elems[j]) for c in cands) for j in range(nS)]
     el = []
     for e in k.elems:
         if is_concrete(e):
@@ -1175,8 +1177,30 @@ def _select(A, key, ax, k):
             el.extend(cands[i].elems)
         else:
             idx = as_poly(e)
+            amax = None
+            sid = idx.single_symbol()
+            if sid is not None:
+                kk = sym_key(sid)
+                if kk[0] == "fn" and kk[1] == "argmax" and len(kk[2]) == 1 and len(kk[2][0]) == len(cands):
+                    amax = kk[2][0]
             for j in range(nS):
-                el.append(Poly.fn("select", idx, ckeys[j]))
+                if amax is not None:
+                    # "the candidate whose comparator is maximal": order-free, and linear in the candidates
+                    # (a common sign is pulled out) -- valid when the maximum is attained once
+                    cp = [as_poly(c.elems[j]) for c in cands]
+                    first = None
+                    order = sorted(range(len(cp)), key=lambda q: amax[q])
+                    sgn = 1
+                    for q in order:
+                        if cp[q].terms:
+                            sgn, _ = canon_sign(cp[q])
+                            break
+                    if sgn < 0:
+                        cp = [-c for c in cp]
+                    sym = Poly.fn("pick_max", tuple(sorted(zip(amax, [pk(c) for c in cp]))))
+                    el.append(-sym if sgn < 0 else sym)
+                else:
+                    el.append(Poly.fn("select", idx, ckeys[j]))
     out = Arr(K + S, el, A.dtype)
     if K and p:
         out = moveaxis(out, tuple(range(len(K))), tuple(range(p, p + len(K))))
@@ -1268,7 +1292,7 @@ def _reduce_elems(kind, items, n):
                 return any(items)
             if kind == "all":
                 return all(items)
-        return Poly.fn(kind, tuple(as_poly(e).key() for e in items))
+        return Poly.fn(kind, tuple(pk(e) for e in items))
     if kind == "norm2":
         s = poly_sum([simp(as_poly(e) * as_poly(e)) if isinstance(e, Poly) else e * e for e in items])
         if isinstance(s, Poly):
